@@ -280,7 +280,7 @@ func (r *llRun) byteAt(o *LLObj, i int) *Term {
 		if o.lazy == "" {
 			r.fail("internal: object %s has no byte %d", o.Name, i)
 		}
-		b = r.in.fresh(fmt.Sprintf("%s[%d]", o.lazy, i), 8)
+		b = r.fresh(fmt.Sprintf("%s[%d]", o.lazy, i), 8)
 		o.Bytes[i] = b
 	}
 	if b == llPtrByte {
